@@ -233,7 +233,7 @@ def run_case(rng):
     form = {"survey": survey}
     if spelled:
         form["settings"] = [spelled]
-    delivery = rng.choice(["dict", "dict", "md", "xlsx-path", "xlsx-bytes", "md-path"])
+    delivery = rng.choice(["dict", "dict", "md", "xlsx-path", "xlsx-bytes", "md-path", "md-path.txt", "md-path.MD", "md-path.", "xlsx-path.XLSX", "xlsx-path.dat"])
     if delivery.startswith("md") and not forms.md_representable(form):
         delivery = "dict"
     stem = None
@@ -256,8 +256,11 @@ def convert_delivery(form, delivery, form_name, dl, stem_name="My Survey_v2"):
         else:
             tmp = tempfile.mkdtemp(prefix="c11_")
             ext = ".xlsx" if delivery == "xlsx-path" else ".md"
+            if "." in delivery:
+                # a suffix the reader does not recognise: the content is sniffed, the file name still names the form
+                ext = delivery[delivery.index("."):].rstrip(".")
             p = os.path.join(tmp, stem_name + ext)
-            if ext == ".xlsx":
+            if delivery.startswith("xlsx"):
                 Path(p).write_bytes(forms.as_xlsx_bytes(form))
             else:
                 Path(p).write_text(forms.as_md(form), encoding="utf-8")
